@@ -264,14 +264,40 @@ impl Runner {
                 let n = s["n"].as_u64().unwrap() as usize;
                 let c = s["c"].as_u64().unwrap_or(0) as usize;
                 if self.w.nodes[n].conns.contains_key(&c) {
+                    // settle first: whatever is due at this instant is legitimate work
+                    let mut k = 0;
+                    while k < 64 && self.w.timer_due(n, c) {
+                        self.w.fire_timeout(n, c);
+                        k += 1;
+                    }
+                    self.w.flush_conn(n, c);
+                    self.w.poll_app(n, c);
+                    self.w.pump_endpoint_events(n, c);
+                    if !self.w.nodes[n].conns.contains_key(&c) {
+                        return;
+                    }
+                    // the same calls once more at the same instant must be no-ops
                     let pre = self.w.probe(n, c);
+                    let mark = self.w.trace.len();
+                    self.w.fire_timeout(n, c);
                     self.w.poll_transmit_once(n, c);
                     self.w.poll_app(n, c);
                     self.w.pump_endpoint_events(n, c);
                     let post = self.w.probe(n, c);
+                    let produced = self.w.trace[mark..].iter().filter(|e| {
+                        matches!(e["ev"].as_str().unwrap_or(""), "Tx" | "AppEvent" | "EpEvent")
+                    }).count();
                     let t = self.w.now_us;
+                    let mut diff: Vec<String> = Vec::new();
+                    if let (Some(a), Some(b)) = (pre.as_object(), post.as_object()) {
+                        for (k, v) in a {
+                            if b.get(k) != Some(v) {
+                                diff.push(format!("{}:{}->{}", k, v, b.get(k).cloned().unwrap_or(Value::Null)).chars().take(300).collect());
+                            }
+                        }
+                    }
                     self.w
-                        .log(json!({"ev":"Spurious","t":t,"n":n,"c":c,"same":pre == post}));
+                        .log(json!({"ev":"Spurious","t":t,"n":n,"c":c,"same":pre == post && produced == 0,"produced":produced,"settle":k,"diff":diff}));
                 }
             }
             o => panic!("unknown step {o}"),
